@@ -40,7 +40,21 @@ def generate(rng, tier, prop='C17'):
     policy = rng.choice(POLICIES)
     case = {'kind': kind, 'mode': mode, 'policy': policy, 'programs': [], 'sweeps': rng.randint(1, 3)}
     tms = [0.0, 0.05, 0.3, 0.3, 1.0, 2.0]
-    if kind == 'cond':
+    if rng.random() < 0.5:
+        # timeouts that expire at the very instant another actor acts (its sleep is as long): with discrete
+        # time such ties are the only way a timeout and a notify/set can race
+        t0 = rng.choice([0.05, 0.3, 1.0])
+        tms = [0.0, t0, t0, t0, t0, rng.choice([0.05, 0.3, 2.0])]
+    if kind == 'cond' and rng.random() < 0.15:
+        # several timed waiters whose timeouts expire while a notify_all()/notify() is in progress
+        case['lock'] = rng.choice(['RLock', 'Lock', None])
+        t0 = rng.choice([0.05, 0.3, 1.0])
+        nw = rng.randint(2, 3)
+        for a in range(nw):
+            case['programs'].append([['wait', t0]] + ([['wait', rng.choice([0.05, 0.3])]] if rng.random() < 0.5 else []))
+        case['programs'].append([['sleep', t0], [rng.choice(['notify_all', 'notify_all', 'notify'])]] +
+                                ([['sleep', 0.05], ['notify']] if rng.random() < 0.5 else []))
+    elif kind == 'cond':
         case['lock'] = rng.choice(['RLock', 'Lock', None])
         for a in range(nact):
             prog = []
